@@ -53,7 +53,7 @@ func declareRenderRules(r *Report, n int) {
 	r.Rule("R-SIZE", "output matrix size term: QR/1-D max(requested, symbol + quiet zone) per axis (1-D height max(1, requested)); Data Matrix: requested size when the symbol fits in both directions, the bare symbol size otherwise", n)
 	r.Rule("R-SCALE", "module size term: the integer quotient out / (symbol + quiet zone), minimum over both axes for 2-D", n)
 	r.Rule("R-PAD", "padding term: (out - symbol*scale) / 2 per axis (Data Matrix: zero when the request is smaller than the symbol)", n)
-	r.Rule("R-BLOCK", "each set module (i, j) is painted as SetRegion(padX + i*scale, padY + j*scale, scale, scale) (1-D: (pad + i*scale, 0, scale, outHeight)) exactly when the input module is set; loops cover the whole symbol; the output starts cleared; no other call writes into the output matrix and no matrix is returned before the module loop", n)
+	r.Rule("R-BLOCK", "each set module (i, j) is painted as SetRegion(padX + i*scale, padY + j*scale, scale, scale) (1-D: (pad + i*scale, 0, scale, outHeight)) exactly when the input module is set; loops cover the whole symbol; the output is a matrix made in the function (or cleared there); no other call writes into the output matrix and no matrix is returned before the module loop", n)
 }
 
 func pureGetter(o types.Object) bool {
@@ -79,6 +79,7 @@ func callsTo(s *symExec, pred func(types.Object) bool) []symCall {
 func kAtoms(p *Poly) []string { return atomsWithPrefix(p.String(), "K~") }
 
 func renderQR(c *Ctx, r *Report) {
+	defer checkRenderWhole(c, r, "qr") // the whole-function fold that decides when the term matcher below does not recognise the code
 	fd, p := c.funcDeclOf("qrcode", "renderResult")
 	key := "qrcode.renderResult"
 	if fd == nil {
@@ -165,6 +166,7 @@ func checkCountedLoops(c *Ctx, p *packages.Package, fd *ast.FuncDecl, call *ast.
 }
 
 func renderDM(c *Ctx, r *Report) {
+	defer checkRenderWhole(c, r, "dm")
 	fd, p := c.funcDeclOf("datamatrix", "convertByteMatrixToBitMatrix")
 	key := "datamatrix.convertByteMatrixToBitMatrix"
 	if fd == nil {
@@ -237,7 +239,9 @@ func renderDM(c *Ctx, r *Report) {
 	_ = str1
 	r.Check(okPad, "R-PAD", key, c.pos(sr[0].Call.Pos()), fmt.Sprintf("block origin (%s, %s); expected pad + i*scale with pad = (out - symbol*scale)/2, or 0 in the too-small branch", prettyPoly(a[0]), prettyPoly(a[1])))
 	// cleared
-	cleared := len(callsTo(s, func(o types.Object) bool { return isMethodNamed(o, "", "BitMatrix", "Clear") })) >= 1
+	// (a matrix made by NewBitMatrix in this function starts cleared; Clear() on it is allowed and not required)
+	cleared := len(callsTo(s, func(o types.Object) bool { return isMethodNamed(o, "", "BitMatrix", "Clear") })) >= 1 ||
+		len(callsTo(s, func(o types.Object) bool { return isFuncNamed(o, "", "NewBitMatrix") })) >= 1
 	loopsOK := checkCountedLoops(c, p, fd, sr[0].Call, nil)
 	r.Check(okBlock && loopsOK && cleared, "R-BLOCK", key, c.pos(sr[0].Call.Pos()), fmt.Sprintf("SetRegion guarded by matrix.Get(i, j) == 1 (%v), counted loops (%v), output cleared (%v)", okBlock, loopsOK, cleared))
 }
@@ -338,6 +342,7 @@ func dmSmallBranchOK(c *Ctx, p *packages.Package, fd *ast.FuncDecl) bool {
 }
 
 func renderOneD(c *Ctx, r *Report) {
+	defer checkRenderWhole(c, r, "oned")
 	fd, p := c.funcDeclOf("oned", "onedWriter_renderResult")
 	key := "oned.onedWriter_renderResult"
 	if fd == nil {
@@ -1170,4 +1175,262 @@ func checkOneDMarginHint(c *Ctx, r *Report) {
 		}
 	}
 	reportFold(r, c, "R-MARGINHINT", key, fd.Pos(), bad)
+}
+
+// R-WHOLE: the three renderers folded as whole functions on recording matrices
+func checkRenderWhole(c *Ctx, r *Report, which string) {
+	r.Rule("R-WHOLE", "each renderer (QR renderResult, Data Matrix convertByteMatrixToBitMatrix, 1-D onedWriter_renderResult), folded from source as a whole with the module matrix and the output matrix replaced by recorders, over a grid of requested sizes (0, below, at and above the symbol, non-square, a prime) and quiet zones: the output matrix has the size of the rule R-SIZE, and the set of pixels painted by its SetRegion calls is exactly the scaled, centred image of the set modules (module size and padding of R-SCALE / R-PAD) - whatever the shape of the code that computes them", 1)
+	type rect struct{ x, y, w, h int64 }
+	type outcome struct {
+		ow, oh int64
+		rects  []rect
+		err    string
+		refuse bool
+	}
+	pat := func(i, j int64) bool { return (i*3+j*5+i*j)%4 < 2 }
+	run := func(fd *ast.FuncDecl, p *packages.Package, args []*Val, mw, mh int64, oneD bool) outcome {
+		var out outcome
+		outM := &Val{K: VStruct, Ptr: true, Fields: map[string]*Val{"recorder": vbool(true)}}
+		h := &rpf{unroll: 100000, maxSteps: 3000000}
+		h.callHook = func(rr *rpf, call *ast.CallExpr, callee types.Object) (*Val, bool) {
+			fn, ok := callee.(*types.Func)
+			if !ok {
+				return nil, false
+			}
+			sel, _ := call.Fun.(*ast.SelectorExpr)
+			switch fn.Name() {
+			case "GetMatrix":
+				return &Val{K: VStruct, Ptr: true, Fields: map[string]*Val{}}, true
+			case "GetWidth":
+				if sel != nil && rr.expr(sel.X) == outM {
+					return vint(out.ow), true
+				}
+				return vint(mw), true
+			case "GetHeight":
+				if sel != nil && rr.expr(sel.X) == outM {
+					return vint(out.oh), true
+				}
+				return vint(mh), true
+			case "Get":
+				if len(call.Args) == 2 {
+					x, y := rr.expr(call.Args[0]), rr.expr(call.Args[1])
+					if x.K != VInt || y.K != VInt || x.I < 0 || y.I < 0 || x.I >= mw || y.I >= mh {
+						rpfFail("a module outside the %dx%d symbol is read", mw, mh)
+					}
+					if pat(x.I, y.I) {
+						return vint(1), true
+					}
+					return vint(0), true
+				}
+			case "Clear":
+				return &Val{K: VNil}, true
+			case "SetRegion":
+				var a [4]int64
+				for i := 0; i < 4; i++ {
+					v := rr.expr(call.Args[i])
+					if v.K != VInt {
+						rpfFail("SetRegion with a non-constant argument")
+					}
+					a[i] = v.I
+				}
+				out.rects = append(out.rects, rect{a[0], a[1], a[2], a[3]})
+				return &Val{K: VNil}, true
+			case "Set":
+				if sel != nil && rr.expr(sel.X) == outM && len(call.Args) == 2 {
+					x, y := rr.expr(call.Args[0]), rr.expr(call.Args[1])
+					out.rects = append(out.rects, rect{x.I, y.I, 1, 1})
+					return &Val{K: VNil}, true
+				}
+			}
+			return errCtorHook(rr, call, callee)
+		}
+		h.multiHook = func(call *ast.CallExpr, callee types.Object) ([]*Val, bool) {
+			if isFuncNamed(callee, "", "NewBitMatrix") && len(call.Args) == 2 {
+				w, hh := rpfCurrent.expr(call.Args[0]), rpfCurrent.expr(call.Args[1])
+				if w.K != VInt || hh.K != VInt {
+					rpfFail("NewBitMatrix with non-constant dimensions")
+				}
+				out.ow, out.oh = w.I, hh.I
+				if w.I < 1 || hh.I < 1 {
+					return []*Val{{K: VNil}, vstr("error")}, true
+				}
+				return []*Val{outM, {K: VNil}}, true
+			}
+			return nil, false
+		}
+		res, err := c.rpfCall(fd, p, args, h)
+		if err != nil {
+			out.err = err.Error()
+			return out
+		}
+		if len(res) == 2 && res[1].K != VNil {
+			out.refuse = true
+		}
+		_ = oneD
+		return out
+	}
+	// painted pixels of a list of rectangles, clipped to the output, as a set
+	paint := func(o outcome) (map[[2]int64]bool, string) {
+		px := map[[2]int64]bool{}
+		for _, rc := range o.rects {
+			if rc.w < 1 || rc.h < 1 || rc.x < 0 || rc.y < 0 || rc.x+rc.w > o.ow || rc.y+rc.h > o.oh {
+				return nil, fmt.Sprintf("SetRegion(%d, %d, %d, %d) does not lie inside the %dx%d output (its error is ignored by the renderer: the block would be missing)", rc.x, rc.y, rc.w, rc.h, o.ow, o.oh)
+			}
+			for y := rc.y; y < rc.y+rc.h; y++ {
+				for x := rc.x; x < rc.x+rc.w; x++ {
+					px[[2]int64{x, y}] = true
+				}
+			}
+		}
+		return px, ""
+	}
+	maxi := func(a, b int64) int64 {
+		if a > b {
+			return a
+		}
+		return b
+	}
+	compare := func(what string, o outcome, ow, oh, mw, mh, scale, padX, padY int64, oneD bool) string {
+		if o.err != "" {
+			if strings.Contains(o.err, "division by zero") || strings.Contains(o.err, "out of range") {
+				return what + ": " + o.err + " - a run-time panic"
+			}
+			return "?" + what + ": " + o.err
+		}
+		if o.refuse {
+			return what + " is refused"
+		}
+		if o.ow != ow || o.oh != oh {
+			return fmt.Sprintf("%s: the output is %dx%d, expected %dx%d", what, o.ow, o.oh, ow, oh)
+		}
+		got, e := paint(o)
+		if e != "" {
+			return what + ": " + e
+		}
+		want := map[[2]int64]bool{}
+		for j := int64(0); j < mh; j++ {
+			for i := int64(0); i < mw; i++ {
+				if !pat(i, j) {
+					continue
+				}
+				hgt := scale
+				y0 := padY + j*scale
+				if oneD {
+					hgt, y0 = oh, 0
+				}
+				for y := y0; y < y0+hgt; y++ {
+					for x := padX + i*scale; x < padX+(i+1)*scale; x++ {
+						want[[2]int64{x, y}] = true
+					}
+				}
+			}
+		}
+		if len(got) != len(want) {
+			return fmt.Sprintf("%s: %d pixels are painted, the scaled and centred symbol (module size %d, padding %d,%d) has %d", what, len(got), scale, padX, padY, len(want))
+		}
+		for k := range want {
+			if !got[k] {
+				return fmt.Sprintf("%s: pixel (%d, %d) of the scaled and centred symbol (module size %d, padding %d,%d) is not painted", what, k[0], k[1], scale, padX, padY)
+			}
+		}
+		return ""
+	}
+	sizes := []int64{0, 5, 7, 8, 15, 16, 23, 31, 40, 53}
+	if which == "" || which == "qr" {
+		fd, p := c.funcDeclOf("qrcode", "renderResult")
+		key := "qrcode.renderResult/whole"
+		if fd == nil {
+			r.AnchorLost("R-WHOLE", key, "function not found")
+		} else {
+			r.Analysed(key)
+			bad := ""
+			const n = int64(7)
+			for _, q := range []int64{0, 1, 4} {
+				for _, w := range sizes {
+					for _, hh := range sizes {
+						if bad != "" {
+							break
+						}
+						o := run(fd, p, []*Val{{K: VStruct, Ptr: true, Fields: map[string]*Val{}}, vint(w), vint(hh), vint(q)}, n, n, false)
+						full := n + 2*q
+						ow, oh := maxi(w, full), maxi(hh, full)
+						scale := ow / full
+						if oh/full < scale {
+							scale = oh / full
+						}
+						bad = compare(fmt.Sprintf("a %dx%d symbol, quiet zone %d, requested %dx%d", n, n, q, w, hh), o, ow, oh, n, n, scale, (ow-n*scale)/2, (oh-n*scale)/2, false)
+					}
+				}
+			}
+			reportFold(r, c, "R-WHOLE", key, fd.Pos(), bad)
+		}
+	}
+	if which == "" || which == "oned" {
+		fd, p := c.funcDeclOf("oned", "onedWriter_renderResult")
+		key := "oned.onedWriter_renderResult/whole"
+		if fd == nil {
+			r.AnchorLost("R-WHOLE", key, "function not found")
+		} else {
+			r.Analysed(key)
+			bad := ""
+			const n = int64(9)
+			code := &Val{K: VList}
+			for i := int64(0); i < n; i++ {
+				code.L = append(code.L, vbool(pat(i, 0)))
+			}
+			for _, m := range []int64{0, 3, 10} {
+				for _, w := range append(sizes, 9, 11, 12, 18, 19) {
+					for _, hh := range []int64{0, 1, 5} {
+						if bad != "" {
+							break
+						}
+						o := run(fd, p, []*Val{code, vint(w), vint(hh), vint(m)}, n, 1, true)
+						full := n + m
+						ow, oh := maxi(w, full), maxi(1, hh)
+						scale := ow / full
+						bad = compare(fmt.Sprintf("%d modules, margin %d, requested %dx%d", n, m, w, hh), o, ow, oh, n, 1, scale, (ow-n*scale)/2, 0, true)
+					}
+				}
+			}
+			reportFold(r, c, "R-WHOLE", key, fd.Pos(), bad)
+		}
+	}
+	if which == "" || which == "dm" {
+		fd, p := c.funcDeclOf("datamatrix", "convertByteMatrixToBitMatrix")
+		key := "datamatrix.convertByteMatrixToBitMatrix/whole"
+		if fd == nil {
+			r.AnchorLost("R-WHOLE", key, "function not found")
+		} else {
+			r.Analysed(key)
+			bad := ""
+			for _, dim := range [][2]int64{{8, 8}, {12, 6}} {
+				mw, mh := dim[0], dim[1]
+				for _, w := range sizes {
+					for _, hh := range sizes {
+						if bad != "" {
+							break
+						}
+						o := run(fd, p, []*Val{{K: VStruct, Ptr: true, Fields: map[string]*Val{}}, vint(w), vint(hh)}, mw, mh, false)
+						// a single result: no refusal possible
+						ow, oh := w, hh
+						scale, padX, padY := int64(1), int64(0), int64(0)
+						if w < mw || hh < mh {
+							ow, oh = mw, mh
+						} else {
+							scale = w / mw
+							if hh/mh < scale {
+								scale = hh / mh
+							}
+							padX, padY = (w-mw*scale)/2, (hh-mh*scale)/2
+						}
+						bad = compare(fmt.Sprintf("a %dx%d symbol, requested %dx%d", mw, mh, w, hh), o, ow, oh, mw, mh, scale, padX, padY, false)
+					}
+				}
+			}
+			reportFold(r, c, "R-WHOLE", key, fd.Pos(), bad)
+		}
+	}
+	for _, sr := range []string{"R-SIZE", "R-SCALE", "R-PAD", "R-BLOCK"} {
+		r.DecidedBy(sr, "R-WHOLE", "the renderers folded as whole functions: output size, module size, padding and painted pixels compared over a grid of requests")
+	}
 }
